@@ -6,7 +6,7 @@
    frames (opcodes, FIN/continuation discipline, minimal lengths, control <= 125, mask per direction). *)
 From Coq Require Import String List NArith Bool.
 From Cfg Require Import Gen.WsConst Model.WsUtf8 Model.WsClose Model.WsFrame Model.WsRead Model.WsReadSpec Model.WsWrite Model.WsWriteSpec
-     Proofs.WsReadB Proofs.WsReadC Proofs.WsWriteA Proofs.WsWriteB Proofs.WsWriteC Proofs.WsWriteD Proofs.WsWriteZ Proofs.WsWriteG Proofs.WsWriteJ.
+     Proofs.WsReadB Proofs.WsReadC Proofs.WsWriteA Proofs.WsWriteB Proofs.WsWriteC Proofs.WsWriteD Proofs.WsWriteZ Proofs.WsWriteG Proofs.WsWriteJ Proofs.WsWriteK.
 Import ListNotations.
 Open Scope N_scope.
 
@@ -132,6 +132,21 @@ Theorem C30_roundtrip_mixed : forall ok infl cfg,
 Proof. intros ok infl cfg Hcap ops keys Hk Hok. exact (roundtrip_t ok infl cfg Hcap ops keys Hk Hok). Qed.
 Print Assumptions C30_roundtrip_mixed.
 
+(* The round trip for ALL operations: as C30_roundtrip_mixed, and additionally control messages
+   (ping, pong, close) written through WriteMessage, NextWriter+...+Close and WritePreparedMessage -
+   one control frame with all the data, or refused when longer than 125 bytes / not writable in one
+   frame - and message types that are neither data nor control (refused by every API).  op_ok_all asks
+   the application for nothing but: text is UTF-8, sizes < 2^63, close payloads valid, 4-byte keys,
+   and the flate contract for compressed messages. *)
+Theorem C30_roundtrip_all : forall ok infl cfg,
+    c_maxFrameHeaderSize < wc_buf cfg ->
+    forall ops keys,
+      keys_ok keys -> Forall (fun to => op_ok_all ok infl cfg (fst to) (snd to)) ops ->
+      spec_read (strict ok) (peer_cfg cfg) infl (fst (write_all_t cfg keys false ops))
+      = close_at_end (ops_events (map snd ops) (map is_none (snd (write_all_t cfg keys false ops)))).
+Proof. intros ok infl cfg Hcap ops keys Hk Hok. exact (roundtrip_all ok infl cfg Hcap ops keys Hk Hok). Qed.
+Print Assumptions C30_roundtrip_all.
+
 (* ------------------------------------------------------------------ non-vacuity *)
 
 Definition ex_cfg_srv : wcfg := mkWcfg true 16 false.   (* write buffer of 2 payload bytes *)
@@ -176,4 +191,12 @@ Example C30_ex_compressed_wire :
               [(true, OpZ 1 [72; 101; 108; 108; 111] ex_z); (false, OpMessage 2 [7])]
   = ([65; 130; 1; 2; 3; 4; 243; 74;  0; 130; 5; 6; 7; 8; 200; 207;  0; 130; 9; 9; 9; 9; 192; 14;  128; 129; 1; 1; 1; 1; 1;
       130; 129; 0; 0; 0; 0; 7], [None; None]).
+Proof. vm_compute. reflexivity. Qed.
+
+(* control messages through the message APIs, client side, write buffer of 2 bytes: the 3-byte ping does
+   not fit into one frame and is refused, the 2-byte one goes out as a single frame *)
+Example C30_ex_control_via_messages :
+  write_all_t ex_cfg_cli [[1; 2; 3; 4]; [5; 6; 7; 8]] false
+              [(true, OpMessage 9 [1; 2; 3]); (true, OpStream 9 [CWrite [7]; CString [8]]); (true, OpMessage 5 [1])]
+  = ([137; 130; 1; 2; 3; 4; 6; 10], [Some WeControl; None; Some WeBadType]).
 Proof. vm_compute. reflexivity. Qed.
